@@ -168,7 +168,7 @@ fn gate_rule(g: Gate, badge: ResourceAddress) -> AccessRule {
 impl World {
     /// Bare world: genesis only (optionally custom genesis settings), no accounts or resources.
     pub fn bare(genesis: Option<BabylonSettings>) -> World {
-        let mut builder = LedgerSimulatorBuilder::new().with_custom_extension(PuppetExtension).without_kernel_trace();
+        let mut builder = LedgerSimulatorBuilder::new().with_custom_extension(PuppetExtension).without_kernel_trace().without_receipt_substate_check();
         if let Some(g) = genesis {
             builder = builder.with_custom_genesis(g);
         }
